@@ -238,6 +238,199 @@ impl<'a> Translator<Key> for MapTr<'a> {
     translate_hash_clone!(Key);
 }
 
+
+/// hash mapping of the hash-translating runs: (mode, argument); mirrored by `fh_of` in coq/Ms/TranslateHashRun.v
+///   0 identity, 1 first byte xor 1 (injective), 2 constant (argument cut to the hash length; not injective),
+///   3 fails on the hash equal to the argument and otherwise as 1, 4 fails on every hash of kind arg[0], otherwise identity
+#[derive(Clone)]
+pub struct HMap {
+    pub mode: u8,
+    pub arg: Vec<u8>,
+}
+impl HMap {
+    fn apply(&self, kind: u8, h: &[u8]) -> Option<Vec<u8>> {
+        let flip = |h: &[u8]| {
+            let mut v = h.to_vec();
+            if !v.is_empty() {
+                v[0] ^= 1;
+            }
+            v
+        };
+        match self.mode {
+            0 => Some(h.to_vec()),
+            1 => Some(flip(h)),
+            2 => Some(self.arg[..h.len()].to_vec()),
+            3 => {
+                if h == &self.arg[..] {
+                    None
+                } else {
+                    Some(flip(h))
+                }
+            }
+            _ => {
+                if self.arg.first() == Some(&kind) {
+                    None
+                } else {
+                    Some(h.to_vec())
+                }
+            }
+        }
+    }
+}
+
+/// translator with a key mapping AND a hash mapping; one call counter and one log over all five methods
+pub struct HTr<'a> {
+    m: &'a Mapping,
+    hm: &'a HMap,
+    ku: &'a KeyU,
+    calls: Vec<String>,
+}
+impl<'a> HTr<'a> {
+    fn hash(&mut self, kind: u8, h: &[u8]) -> Result<Vec<u8>, usize> {
+        let n = self.calls.len();
+        self.calls.push(format!("h{}:{}", kind, hex(h)));
+        if self.m.fail_at == Some(n) {
+            return Err(n);
+        }
+        self.hm.apply(kind, h).ok_or(n)
+    }
+}
+impl<'a> Translator<Key> for HTr<'a> {
+    type TargetPk = Key;
+    type Error = usize;
+    fn pk(&mut self, pk: &Key) -> Result<Key, usize> {
+        let i = self.ku.index(pk);
+        let n = self.calls.len();
+        self.calls.push(format!("k{}", i));
+        match self.m.apply(n, i) {
+            Some(j) => Ok(self.ku.key(j)),
+            None => Err(n),
+        }
+    }
+    fn sha256(&mut self, h: &sha256::Hash) -> Result<sha256::Hash, usize> {
+        self.hash(0, h.as_byte_array()).map(|v| sha256::Hash::from_slice(&v).unwrap())
+    }
+    fn hash256(&mut self, h: &hash256::Hash) -> Result<hash256::Hash, usize> {
+        self.hash(1, h.as_byte_array()).map(|v| hash256::Hash::from_slice(&v).unwrap())
+    }
+    fn ripemd160(&mut self, h: &ripemd160::Hash) -> Result<ripemd160::Hash, usize> {
+        self.hash(2, h.as_byte_array()).map(|v| ripemd160::Hash::from_slice(&v).unwrap())
+    }
+    fn hash160(&mut self, h: &hash160::Hash) -> Result<hash160::Hash, usize> {
+        self.hash(3, h.as_byte_array()).map(|v| hash160::Hash::from_slice(&v).unwrap())
+    }
+}
+
+/// (kind, bytes) of the hash tokens of a dump
+fn dump_hashes(dump: &str) -> Vec<(u8, Vec<u8>)> {
+    let tok: Vec<&str> = dump.split(' ').collect();
+    let mut out = Vec::new();
+    for i in 0..tok.len().saturating_sub(1) {
+        let kind = match tok[i] {
+            "sha256" => 0u8,
+            "hash256" => 1,
+            "ripemd160" => 2,
+            "hash160" => 3,
+            _ => continue,
+        };
+        let h = tok[i + 1];
+        if h.len() % 2 == 0 && !h.is_empty() && h.chars().all(|c| c.is_ascii_hexdigit()) {
+            out.push((kind, (0..h.len() / 2).map(|j| u8::from_str_radix(&h[2 * j..2 * j + 2], 16).unwrap()).collect()));
+        }
+    }
+    out
+}
+
+/// the hash-translating runs of one value: `TH | dom | vid | mapid | hash mode | hash argument | result | call log | identity ==`
+/// `run(translator, is_identity)` performs the translation and returns (result, "1"/"0"/"-")
+#[allow(clippy::too_many_arguments)]
+fn th_cases(
+    dom: &str,
+    vid: usize,
+    dump: &str,
+    seed: u64,
+    tap: bool,
+    ku: &KeyU,
+    all_keymaps: bool,
+    mapid: &mut usize,
+    run: &dyn Fn(&mut HTr, bool) -> (String, String),
+) {
+    let mut rng = Rng(seed ^ 0x4a5b_0000 ^ ((vid as u64) << 20));
+    let hashes = dump_hashes(dump);
+    let ident_map = Mapping { name: "identity".into(), fp: (0..N_KEYS).map(Some).collect(), fail_at: None };
+    let h0 = HMap { mode: 0, arg: vec![] };
+    // the translator's calls under the identity: keys and the total number of calls
+    let mut probe = HTr { m: &ident_map, hm: &h0, ku, calls: vec![] };
+    let _ = run(&mut probe, false);
+    let total = probe.calls.len();
+    let krtl: Vec<usize> = probe.calls.iter().filter(|c| c.starts_with('k')).map(|c| c[1..].parse().unwrap()).collect();
+    let mut kall = krtl.clone();
+    kall.sort();
+    kall.dedup();
+    let kmaps = mappings(&mut rng, tap, !tap, &krtl, &kall);
+    let mut hms = vec![h0.clone(), HMap { mode: 1, arg: vec![] }, HMap { mode: 2, arg: vec![0x11; 32] }];
+    if !hashes.is_empty() {
+        let (k, h) = hashes[rng.below(hashes.len() as u64) as usize].clone();
+        hms.push(HMap { mode: 3, arg: h });
+        hms.push(HMap { mode: 4, arg: vec![k] });
+        let (k2, _) = hashes[hashes.len() - 1].clone();
+        hms.push(HMap { mode: 4, arg: vec![k2] });
+    }
+    let mut pairs: Vec<(Mapping, HMap)> = Vec::new();
+    if all_keymaps {
+        for (i, mp) in kmaps.iter().enumerate() {
+            pairs.push((mp.clone(), hms[(i + vid) % hms.len()].clone()));
+        }
+    }
+    for hm in &hms {
+        pairs.push((kmaps[1].clone(), hm.clone()));
+    }
+    pairs.push((kmaps[0].clone(), hms[0].clone()));
+    if all_keymaps {
+        pairs.push((kmaps[0].clone(), hms[1].clone()));
+        pairs.push((kmaps[2].clone(), hms[2].clone()));
+    }
+    if total > 0 {
+        let fails: &[(usize, usize)] = if all_keymaps { &[(0, 1), (total / 2, 1), (total - 1, 0), (total - 1, 2)] } else { &[(total / 2, 1), (total - 1, 2)] };
+        for &(n, hmi) in fails {
+            pairs.push((Mapping { name: format!("fail-at-{}", n), fp: kmaps[1].fp.clone(), fail_at: Some(n) }, hms[hmi].clone()));
+        }
+    }
+    for (mp, hm) in pairs {
+        *mapid += 1;
+        println!(
+            "M | {} | {} | {} | {}",
+            mapid,
+            mp.name,
+            mp.fp.iter().map(|x| x.map(|v| v.to_string()).unwrap_or("-".into())).collect::<Vec<_>>().join(" "),
+            mp.fail_at.map(|v| v.to_string()).unwrap_or("-".into())
+        );
+        let mut tr = HTr { m: &mp, hm: &hm, ku, calls: vec![] };
+        let (res, eq) = run(&mut tr, mp.name == "identity" && hm.mode == 0);
+        println!(
+            "TH | {} | {} | {} | {} | {} | {} | {} | {}",
+            dom,
+            vid,
+            mapid,
+            hm.mode,
+            if hm.arg.is_empty() { "-".to_string() } else { hex(&hm.arg) },
+            res,
+            if tr.calls.is_empty() { "-".to_string() } else { tr.calls.join(" ") },
+            eq
+        );
+    }
+}
+
+fn eq_flag(ident: bool, same: bool) -> String {
+    if !ident {
+        "-".into()
+    } else if same {
+        "1".into()
+    } else {
+        "0".into()
+    }
+}
+
 /// a second-stage translator on keys of the universe (for the composition check)
 struct ShiftTr<'a> {
     ku: &'a KeyU,
@@ -654,6 +847,14 @@ fn run_ms<Ctx: ScriptContext>(w: &World, seed: u64, ci: CtxInfo, dom: &str, nval
                 Err(_) => println!("D | {} | {} | PANIC", dom, vid),
             }
         }
+        // ---- hash-translating runs (values with at least one hash fragment)
+        if !dump_hashes(&dump).is_empty() {
+            th_cases(dom, vid, &dump, seed, ci.tap, &ku, false, mapid, &|tr: &mut HTr, ident: bool| {
+                let r = catch_unwind(AssertUnwindSafe(|| m.translate_pk(tr))).map_err(|_| ());
+                let eq = eq_flag(ident, matches!(&r, Ok(Ok(x)) if x == m));
+                (res_str(&r, &|x: &Miniscript<Key, Ctx>| gdump_str(&x.node, &kn)), eq)
+            });
+        }
     }
 }
 
@@ -898,6 +1099,13 @@ fn run_desc(w: &World, seed: u64, nbase: usize, mapid: &mut usize) {
                     slen
                 );
             }
+            if !dump_hashes(&dump).is_empty() {
+                th_cases(dom, vid, &dump, seed, tap, &ku, false, mapid, &|tr: &mut HTr, ident: bool| {
+                    let r = catch_unwind(AssertUnwindSafe(|| d.translate_pk(tr))).map_err(|_| ());
+                    let eq = eq_flag(ident, matches!(&r, Ok(Ok(x)) if x == d));
+                    (res_str(&r, &|x: &Descriptor<Key>| ddump(x, &kn)), eq)
+                });
+            }
             vid += 1;
         }
     }
@@ -938,11 +1146,13 @@ fn sdump(p: &Semantic<Key>, kn: &dyn Fn(&Key) -> String) -> String {
 fn gen_conc(w: &World, rng: &mut Rng, depth: u32, next_key: &mut usize) -> Concrete<Key> {
     let leaf = depth == 0 || rng.chance(1, 3);
     if leaf {
-        match rng.below(8) {
+        match rng.below(11) {
             0 => Concrete::After(AbsLockTime::from_consensus(1 + rng.below(1000) as u32).unwrap()),
             1 => Concrete::Older(RelLockTime::from_consensus(1 + rng.below(1000) as u32).unwrap()),
             2 => Concrete::Sha256(w.sha256_img(rng.below(N_PRE as u64) as usize)),
             3 => Concrete::Hash160(w.hash160_img(rng.below(N_PRE as u64) as usize)),
+            4 => Concrete::Hash256(w.hash256_img(rng.below(N_PRE as u64) as usize)),
+            5 => Concrete::Ripemd160(w.ripemd160_img(rng.below(N_PRE as u64) as usize)),
             _ => {
                 *next_key += 1;
                 Concrete::Key(w.key((*next_key - 1) % 6, false))
@@ -962,6 +1172,30 @@ fn gen_conc(w: &World, rng: &mut Rng, depth: u32, next_key: &mut usize) -> Concr
             }
         }
     }
+}
+
+/// for_any_key(== first key) and for_each_key with the pure predicate `!= target` (target = the middle key):
+/// "j:result:visited" with j the first position of the target
+fn pol_iter_extra(
+    each: &[usize],
+    any: &dyn Fn(&dyn Fn(&Key) -> bool) -> bool,
+    foreach: &dyn Fn(&mut dyn FnMut(&Key) -> bool) -> bool,
+    ku: &KeyU,
+) -> (String, String) {
+    if each.is_empty() {
+        return ("-".into(), "-".into());
+    }
+    let first = each[0];
+    let a = any(&|k: &Key| ku.index(k) == first);
+    let target = each[each.len() / 2];
+    let j = each.iter().position(|x| *x == target).unwrap();
+    let mut visited: Vec<usize> = Vec::new();
+    let r = foreach(&mut |k: &Key| {
+        let i = ku.index(k);
+        visited.push(i);
+        i != target
+    });
+    ((a as u8).to_string(), format!("{}:{}:{}", j, r as u8, list(&visited)))
 }
 
 fn run_pol(w: &World, seed: u64, n: usize, mapid: &mut usize) {
@@ -988,7 +1222,8 @@ fn run_pol(w: &World, seed: u64, n: usize, mapid: &mut usize) {
         });
         let keys: Vec<usize> = c.keys().iter().map(|k| ku.index(k)).collect();
         let strk = scan_keys(&c.to_string(), &ku);
-        println!("I | conc | {} | {} | {}:{} | {} | - | -", cv, list(&keys), if all { 1 } else { 0 }, list(&each), list(&strk));
+        let (anyv, short) = pol_iter_extra(&each, &|p: &dyn Fn(&Key) -> bool| c.for_any_key(|k| p(k)), &|p: &mut dyn FnMut(&Key) -> bool| c.for_each_key(|k| p(k)), &ku);
+        println!("I | conc | {} | {} | {}:{} | {} | {} | {}", cv, list(&keys), if all { 1 } else { 0 }, list(&each), list(&strk), anyv, short);
         let mut probe = MapTr { m: &Mapping { name: "probe".into(), fp: (0..N_KEYS).map(Some).collect(), fail_at: None }, ku: &ku, calls: vec![] };
         let _ = c.translate_pk(&mut probe);
         let krtl = probe.calls.clone();
@@ -1023,6 +1258,14 @@ fn run_pol(w: &World, seed: u64, n: usize, mapid: &mut usize) {
             };
             println!("T | conc | {} | {} | {} | {} | - | - | {} | -", cv, mapid, res, list(&tr.calls), eq_orig);
         }
+        th_cases("conc", cv, &dump, seed, false, &ku, true, mapid, &|tr: &mut HTr, ident: bool| {
+            let r = catch_unwind(AssertUnwindSafe(|| c.translate_pk(tr)));
+            match r {
+                Err(_) => ("PANIC".to_string(), "-".to_string()),
+                Ok(Ok(x)) => (format!("OK {}", cdump(&x, &kn)), eq_flag(ident, x == c)),
+                Ok(Err(i)) => (format!("ET {}", i), "-".to_string()),
+            }
+        });
         cv += 1;
         // the lifted (semantic) policy of the same value
         if let Ok(s) = c.lift() {
@@ -1037,7 +1280,8 @@ fn run_pol(w: &World, seed: u64, n: usize, mapid: &mut usize) {
                 true
             });
             let strk = scan_keys(&s.to_string(), &ku);
-            println!("I | sem | {} | {} | {}:{} | {} | - | -", sv, list(&each), if all { 1 } else { 0 }, list(&each), list(&strk));
+            let (anyv, short) = pol_iter_extra(&each, &|p: &dyn Fn(&Key) -> bool| s.for_any_key(|k| p(k)), &|p: &mut dyn FnMut(&Key) -> bool| s.for_each_key(|k| p(k)), &ku);
+            println!("I | sem | {} | {} | {}:{} | {} | {} | {}", sv, list(&each), if all { 1 } else { 0 }, list(&each), list(&strk), anyv, short);
             let mut probe = MapTr { m: &Mapping { name: "probe".into(), fp: (0..N_KEYS).map(Some).collect(), fail_at: None }, ku: &ku, calls: vec![] };
             let _ = s.translate_pk(&mut probe);
             let krtl = probe.calls.clone();
@@ -1072,6 +1316,14 @@ fn run_pol(w: &World, seed: u64, n: usize, mapid: &mut usize) {
                 };
                 println!("T | sem | {} | {} | {} | {} | - | - | {} | -", sv, mapid, res, list(&tr.calls), eq_orig);
             }
+            th_cases("sem", sv, &dump, seed, false, &ku, true, mapid, &|tr: &mut HTr, ident: bool| {
+                let r = catch_unwind(AssertUnwindSafe(|| s.translate_pk(tr)));
+                match r {
+                    Err(_) => ("PANIC".to_string(), "-".to_string()),
+                    Ok(Ok(x)) => (format!("OK {}", sdump(&x, &kn)), eq_flag(ident, x == s)),
+                    Ok(Err(i)) => (format!("ET {}", i), "-".to_string()),
+                }
+            });
             sv += 1;
         }
     }
